@@ -5,8 +5,8 @@
 //! two interfaces on `Medium::Ip` and the receivers' socket-level observations are compared
 //! (differential oracle), plus direct clauses (frame size, nothing delivered that was not sent,
 //! every accepted in-bounds datagram delivered exactly once for in-order frames). A second part
-//! captures the fragments of a datagram and feeds every permutation (+ one duplicate) to a fresh
-//! receiver. See `lowpan/scen.rs` for the oracles and `lowpan/world.rs` for the plumbing.
+//! captures the fragments of a datagram and feeds every permutation (+ one duplicate) to fresh and
+//! to warmed-up receivers. See `lowpan/scen.rs` for the oracles and `lowpan/world.rs` for the plumbing.
 //!
 //! Parts (scenario `part`):
 //!  * `udp`     one datagram per exchange: address classes x port pairs x hop limits x every length
@@ -19,7 +19,9 @@
 //!  * `hwchg`   Interface::set_hardware_addr on the sender while fragments are pending;
 //!  * `ingress` the sender receives an echo request / UDP to a closed port (from the peer or a third
 //!              node) while its own fragments are pending;
-//!  * `perm`    every order (+ one duplicate) of the fragments of a datagram on a fresh receiver;
+//!  * `perm`    every order (+ one duplicate) of the fragments of a datagram, fed to a receiver that
+//!              has never reassembled anything / has reassembled a smaller / a larger datagram;
+//!              delivery is demanded for every order;
 //!  * `icmp`    echo request/reply through ICMP sockets; `tcp` a short connection; `mld` group join.
 
 mod scen;
@@ -479,9 +481,15 @@ fn plan(tier: Tier) -> Plan {
             }
             let lens: Vec<usize> = if thorough { (40..=440).collect() } else { boundary_lens(&j).into_iter().filter(|l| *l <= 440).collect() };
             for l in lens {
-                let mut k = j.clone();
-                k.lens = vec![l];
-                perm.push(k);
+                // the receiver is (a) fresh: the permuted set is the first reassembly of its life,
+                // (b) warmed up by a smaller (2-frame) datagram, (c) warmed up by a larger one
+                let c2 = size_class_lens(*sh, HwKind::Ext, &j.main_dg(0))[1];
+                for prior in [None, Some(c2), Some(700usize)] {
+                    let mut k = j.clone();
+                    k.lens = vec![l];
+                    k.first = prior.map(|pl| Dgp { len: pl, ..j.main_dg(0) });
+                    perm.push(k);
+                }
             }
         }
     }
@@ -561,7 +569,7 @@ fn plan(tier: Tier) -> Plan {
             "device": ["one frame per poll", "unlimited", "each also fully blocked for 16 rounds while the stimulus arrives"], "sizes of S's datagram": "3 frames, 600, 1200 (thorough: + 300, 900, largest)"},
         "twosock": {"scenarios": twosock.len(), "what": "two sockets of the sending interface each queue one datagram before the same poll: UDP socket 1 (first in the SocketSet) + a second UDP socket (other local port) or the ICMP socket (echo request); size classes {1 frame, 2 frames, 3 frames}^2; device unlimited / one frame per poll; both must be reproduced at the receiver, in any order"},
         "b2b": {"scenarios": b2b.len(), "sizes (each of two datagrams)": b2b_sizes, "address pairs": b2b_pairs.len(), "port pairs": b2b_ports.len()},
-        "perm": {"captures": perm.len(), "address pairs": perm_pairs.len(), "port pairs": perm_ports.len(), "sequences": "n!: 2/6/24 permutations; n<=3: + every permutation with one fragment inserted a second time at any position (6 resp. 36 distinct sequences more)"},
+        "perm": {"captures": perm.len(), "address pairs": perm_pairs.len(), "port pairs": perm_ports.len(), "receiver": "fresh (first reassembly of its life) / has reassembled a 2-frame datagram before / has reassembled a larger (700-octet) datagram before; delivery is demanded for EVERY order", "sequences": "n!: 2/6/24 permutations; n<=3: + every permutation with one fragment inserted a second time at any position (6 resp. 36 distinct sequences more)"},
         "icmp": {"scenarios": icmp.len(), "address configs": UNICAST_CLASSES.len() * icmp_dsts.len(), "hop limits": HOP_LIMITS},
         "tcp": {"scenarios": tcp.len(), "bytes each way": tcp_n, "address pairs": tcp_pairs.len(), "device mtu": [1500, 125], "hop limits": tcp_hl},
     });
@@ -585,14 +593,9 @@ fn run_one(scn: &Scn, acc: &mut Acc) {
                 // replay of one order: capture again, then deliver exactly that order
                 let mut base = scn.clone();
                 base.order = vec![];
-                let cap = std::panic::catch_unwind(std::panic::AssertUnwindSafe(|| {
-                    let mut w = World::new(&base.world_cfg(Med::Lowpan));
-                    prepare(&mut w, &base);
-                    w.udp_rebind(base.sport, base.dport, base.hl);
-                    udp_exchange(&mut w, &base).frames
-                }));
+                let cap = std::panic::catch_unwind(std::panic::AssertUnwindSafe(|| perm_capture(&base)));
                 match cap {
-                    Ok(frames) if scn.order.iter().all(|i| *i < frames.len()) => eval_perm(scn, &frames, acc),
+                    Ok((prior, frames, _, _, _)) if scn.order.iter().all(|i| *i < frames.len()) => eval_perm(scn, &prior, &frames, acc),
                     Ok(_) => acc.machinery.push("perm replay: captured fewer fragments than the order refers to".into()),
                     Err(_) => acc.machinery.push("perm replay: capture panicked".into()),
                 }
@@ -690,6 +693,12 @@ fn finalize(sig: &str, scn: &Scn, _detail: &str) -> Result<(String, Scn, String)
             let ch1 = hdr_sizes(t.s_hw, t.r_hw, t.src, t.dst, t.sport, t.dport, t.hl, t.proto()).1;
             let same = (orig.lens[0] + ch0).saturating_sub(ch1);
             vec![t.clone(), Scn { lens: vec![same], ..t.clone() }, Scn { lens: vec![1400], ..t.clone() }, Scn { lens: vec![300], ..t }]
+        } else if orig.part == "perm" && t.part == "perm" && t.lens.len() == 1 {
+            // keep the fragment layout the order refers to: same compressed size
+            let ch0 = hdr_sizes(orig.s_hw, orig.r_hw, orig.src, orig.dst, orig.sport, orig.dport, orig.hl, orig.proto()).1;
+            let ch1 = hdr_sizes(t.s_hw, t.r_hw, t.src, t.dst, t.sport, t.dport, t.hl, t.proto()).1;
+            let same = (orig.lens[0] + ch0).saturating_sub(ch1);
+            vec![t.clone(), Scn { lens: vec![same], ..t }]
         } else if orig.part == "ingress" && t.part == "ingress" {
             vec![t.clone(), Scn { lens: vec![1200], ..t }]
         } else if orig.part == "hwchg" && t.part == "hwchg" {
@@ -717,6 +726,10 @@ fn finalize(sig: &str, scn: &Scn, _detail: &str) -> Result<(String, Scn, String)
     if scn.part == "b2b" {
         steps.push(Box::new(|s| if s.part == "b2b" { vec![Scn { part: "udp".into(), lens: vec![s.lens[0]], ..s.clone() }] } else { vec![] }));
         steps.push(Box::new(|s| if s.part == "b2b" { vec![Scn { part: "udp".into(), lens: vec![*s.lens.last().unwrap()], ..s.clone() }] } else { vec![] }));
+    }
+    if scn.part == "perm" {
+        // on a receiver that has never reassembled anything
+        steps.push(Box::new(|s| if s.part == "perm" && s.first.is_some() { vec![Scn { first: None, ..s.clone() }] } else { vec![] }));
     }
     if scn.part == "ingress" {
         // without the disturbance (then it is an ordinary single-datagram failure)
@@ -910,7 +923,7 @@ pub fn run(tier: Tier) -> i32 {
         smoltcp::config::REASSEMBLY_BUFFER_SIZE
     ));
     rep.assumptions.push("order BETWEEN different datagrams (same socket, two sockets, a small datagram overtaking the fragments of a large one) is not demanded: the property is per datagram; a datagram a socket has dequeued must arrive exactly once".into());
-    rep.assumptions.push("fragment-order part: delivery demanded only when FRAG1 arrives first (lenient reading of 'any order the reassembler can track'); every order must be safe (the original datagram at most once, or nothing)".into());
+    rep.assumptions.push("fragment-order part: the reassembler places a FRAGN at its offset whether or not FRAG1 has arrived, so every permutation (+ one duplicate) of <= 4 fragments is an order it can track: delivery exactly once is demanded for all of them, on a fresh receiver and on receivers that reassembled a smaller / a larger datagram before".into());
     rep.assumptions.push("neighbors are resolved by the real NS/NA exchange before each scenario (warm-up datagrams on separate sockets); a node with a SHORT hardware address cannot be resolved (NDISC link-layer option must be 8 octets) so it only sends to multicast or to a neighbor that solicited it".into());
     rep.assumptions.push(format!("each node owns its hardware-derived link-local address plus at most IFACE_MAX_ADDR_COUNT-1 = {} more; sequence scenarios needing more distinct unicast classes on one node are skipped in this build variant", smoltcp::config::IFACE_MAX_ADDR_COUNT - 1));
     rep.assumptions.push("frames handed to the device carry no FCS: limit is 125 octets (127 with FCS)".into());
@@ -944,7 +957,7 @@ pub fn run(tier: Tier) -> i32 {
             let frames = udp_exchange(&mut w, &k).frames;
             let order = vec![2usize, 2, 0, 1];
             let ok = order.iter().all(|i| *i < frames.len());
-            let (obs, _, _) = if ok { deliver_fresh(&k, &frames, &order) } else { (vec![], vec![], 0) };
+            let (obs, _, _) = if ok { deliver_fresh(&k, &[], &frames, &order) } else { (vec![], vec![], 0) };
             json!({"scenario": k.to_json(), "fragments": frames.iter().map(|f| describe_frame(f)).collect::<Vec<_>>(), "order_fed_to_fresh_receiver": order,
                 "delivered": obs.iter().map(|o| json!({"len": o.payload.len(), "intact": o.payload == pattern(200, 0), "sport": o.sport})).collect::<Vec<_>>()})
         }));
@@ -1037,7 +1050,7 @@ pub fn run(tier: Tier) -> i32 {
     rep.cov(
         "fragment_order",
         json!({"sequences_fed_to_fresh_receivers": total.perm_sequences, "delivered_frag1_first": total.perm_delivered_frag1_first,
-            "delivered_although_fragn_first": total.perm_delivered_other_order, "not_delivered_fragn_first (allowed)": total.perm_undelivered_other_order,
+            "delivered_fragn_first": total.perm_delivered_other_order, "not_delivered_fragn_first (violations)": total.perm_undelivered_other_order,
             "captures_skipped_because_in_order_delivery_already_fails": total.perm_skipped_base_fails}),
     );
     rep.cov("distinct_outcomes", json!(total.outcomes));
